@@ -35,6 +35,8 @@ def build(tier, work, builder):
         sl = X.function(src, name, rx)
         sl.sub("glue:name spelling->identity", r"(const )?(std::)?string&? (name)\b", "verif_name name")
         sl.sub("glue:string value->identity", r"(const )?(std::)?string&? (typeLSC|mode|actname)\b", r"verif_str \3")
+        # a move out of an object that lives on (a member of another object) leaves it in an unspecified state: keep that
+        sl.sub("L23b:x = std::move(y.m) -> x = y.m; y.m is left unspecified", r"([\w\.\->]+) = std::move\((\w+(?:\.|->)[\w\.\->]+)\);", r"\1 = \2; verif_moved_from(\2);")
         sl.sub("L23:std::move(x)->x", r"std::move\((\w+)\)", r"\1")
         sl.sub("L15:auto&->explicit type", r"auto& loc = locations\.emplace_back\(\);", "location_t& loc = locations.emplace_back();")
         sl.sub("L15:auto&->explicit type", r"auto& branchpoint = branchpoints\.emplace_back\(\);", "branchpoint_t& branchpoint = branchpoints.emplace_back();")
